@@ -121,8 +121,9 @@ type env struct {
 	// postpone: when set, successes whose references are not acknowledged yet are collected here instead of
 	// being judged (results for them may be waiting on another session's stream)
 	postpone *[]*spb.AFTResult
-	// altPayload: see reportDiffs
+	// altPayload: see reportDiffs; ambigKeys: keys for which every writer of the current batch is an alternative
 	altPayload map[Key][]proto.Message
+	ambigKeys  map[Key]bool
 	// lostRole: sessions that may have lost the primary role at some instant of a concurrent run (set by the
 	// concurrent families for their final checks only)
 	lostRole map[int]bool
@@ -477,6 +478,12 @@ func (e *env) processResults(s *session, rs []*spb.ModifyResponse) {
 
 func (e *env) oneResult(s *session, res *spb.AFTResult) {
 	rec := s.sent[res.GetId()]
+	if fn := os.Getenv("VERIF_DEBUG_HOOKS"); fn != "" {
+		if f, err := os.OpenFile(fn, os.O_APPEND|os.O_CREATE|os.O_WRONLY, 0o644); err == nil {
+			fmt.Fprintf(f, "RESULT step %d sess %d id %d %s own=%v shadow=%v plan=%+v alignLost=%v curTrig=%d\n", e.step, s.idx, res.GetId(), res.GetStatus(), rec != nil, e.shadow[res.GetId()] != nil, e.plan[res.GetId()], s.alignLost, e.curTrig)
+			f.Close()
+		}
+	}
 	if os.Getenv("VERIF_DEBUG") != "" {
 		fmt.Fprintf(os.Stderr, "DBG step %d sess %d result id %d %s own=%v\n", e.step, s.idx, res.GetId(), res.GetStatus(), rec != nil)
 	}
@@ -636,6 +643,26 @@ func (e *env) resultIsForShadow(own, sh *opRec, res *spb.AFTResult) bool {
 			pl.shadow--
 			return true
 		}
+		// both will be answered in this batch, and which of the two verdicts under the shared id is whose cannot
+		// be told from the outside: the position of each operation among the other writers of its key in this
+		// batch is open, so whichever of them wrote last may be what stays installed
+		for _, o := range []*opRec{own, sh} {
+			if _, en, _ := e.model.Analyse(o.op); en != nil && en.Msg != nil {
+				if e.altPayload == nil {
+					e.altPayload = map[Key][]proto.Message{}
+				}
+				if e.ambigKeys == nil {
+					e.ambigKeys = map[Key]bool{}
+				}
+				e.ambigKeys[en.Key] = true
+				if cur := e.model.Tab[en.Key]; cur != nil && cur.Msg != nil {
+					e.altPayload[en.Key] = append(e.altPayload[en.Key], cur.Msg)
+				}
+				if o.op.GetOp() != spb.AFTOperation_DELETE {
+					e.altPayload[en.Key] = append(e.altPayload[en.Key], en.Msg)
+				}
+			}
+		}
 		forShadow := e.shadowByContent(own, sh, res, ownTerminal, shLive)
 		if forShadow && pl.shadow > 0 {
 			pl.shadow--
@@ -722,6 +749,9 @@ func (e *env) applyVerdict(rec *opRec, res *spb.AFTResult, foreign bool) {
 		}
 		if en == nil {
 			return
+		}
+		if e.ambigKeys[en.Key] && en.Msg != nil && op.GetOp() != spb.AFTOperation_DELETE {
+			e.altPayload[en.Key] = append(e.altPayload[en.Key], en.Msg)
 		}
 		e.model.Apply(op, en)
 		rec.state = opProgrammed
@@ -1384,6 +1414,12 @@ func (e *env) postChangeHook(ot constants.OpType, ts int64, ni string, data ygot
 		e.hookErr = append(e.hookErr, fmt.Sprintf("%s %s: %v", ot, ni, err))
 		return
 	}
+	if os.Getenv("VERIF_DEBUG_HOOKS") != "" {
+		if f, err := os.OpenFile(os.Getenv("VERIF_DEBUG_HOOKS"), os.O_APPEND|os.O_CREATE|os.O_WRONLY, 0o644); err == nil {
+			fmt.Fprintf(f, "HOOK step %d %v %s %s %s\n", e.step, ot, ni, k, compact(m))
+			f.Close()
+		}
+	}
 	switch ot {
 	case constants.Add, constants.Replace:
 		e.hookFold[ni][k] = m
@@ -1432,6 +1468,17 @@ func (e *env) checkHooks() {
 	for _, d := range diffSnap(modelSnapshot(e.model, "", -1), fold) {
 		if en := e.model.Tab[d.Key]; d.What == "payload" && en != nil && en.Loose {
 			continue
+		}
+		if d.What == "payload" {
+			settled := false
+			for _, alt := range e.altPayload[d.Key] {
+				if compact(normalize(alt)) == d.Got {
+					settled = true // (see altPayload: the order of two acknowledgements was not observable)
+				}
+			}
+			if settled {
+				continue
+			}
 		}
 		late := ""
 		if d.Key.NI != e.sc.Cfg.Default {
